@@ -1165,14 +1165,23 @@ def _gen_reduce(allow0=True, kind="int", kw=None, keepdims=True, flt32=True):
         kd = keepdims and rng.random() < 0.4
         if kd:
             fl.add("keepdims")
+        sp = rng.choice(["bool", "bool", "bool", "int"]) if keepdims else "bool"
+        if sp != "bool":
+            fl.add("keepdims-kind=" + sp)
         dt = "float32" if flt32 and rng.random() < 0.08 else "float64"
-        return mk({"axis": ax, "keepdims": kd}, [opd(rng, shape, small=small, dtype=dt, kind=kind, **(kw or {}))], fl)
+        return mk({"axis": ax, "keepdims": kd, "kd_spell": sp}, [opd(rng, shape, small=small, dtype=dt, kind=kind, **(kw or {}))], fl)
 
     return gen
 
 
+def dec_kd(p):
+    """the keepdims argument as the case spells it: a bool, the integers 0/1, or a NumPy bool (all legal for NumPy)"""
+    v, sp = bool(p["keepdims"]), p.get("kd_spell", "bool")
+    return int(v) if sp == "int" else (np.bool_(v) if sp == "npbool" else v)
+
+
 def _red(f):
-    return lambda p, ts: f(ts[0], axis=dec_axis(p["axis"]), keepdims=p["keepdims"])
+    return lambda p, ts: f(ts[0], axis=dec_axis(p["axis"]), keepdims=dec_kd(p))
 
 
 family("sum", ["Sum"], "linear", _red(mg.sum), weight=1.5)(_gen_reduce())
@@ -1665,7 +1674,7 @@ def _gen_var(rng, small):
 
 
 def _redd(f):
-    return lambda p, ts: f(ts[0], axis=dec_axis(p["axis"]), keepdims=p["keepdims"], ddof=p["ddof"])
+    return lambda p, ts: f(ts[0], axis=dec_axis(p["axis"]), keepdims=dec_kd(p), ddof=p["ddof"])
 
 
 family("var", ["Variance"], "custom", _redd(mg.var), oracle=_oracle_var(False), weight=1.5)(_gen_var)
@@ -1838,14 +1847,17 @@ def _gen_norm(rng, small):
         kd = rng.random() < 0.4
         if kd:
             fl.add("keepdims")
+        sp = rng.choice(["bool", "bool", "bool", "int"])
+        if sp != "bool":
+            fl.add("keepdims-kind=" + sp)
         fl.add(f"ord={ordv}")
-        return mk({"ord": ordv, "axis": ax, "keepdims": kd},
+        return mk({"ord": ordv, "axis": ax, "keepdims": kd, "kd_spell": sp},
                   [opd(rng, shape, small=small, kind="float", away=0.25)], fl)
     raise RuntimeError
 
 
 family("norm", ["Norm"], "numeric",
-       lambda p, ts: mg.linalg.norm(ts[0], ord=p["ord"], axis=dec_axis(p["axis"]), keepdims=p["keepdims"]),
+       lambda p, ts: mg.linalg.norm(ts[0], ord=p["ord"], axis=dec_axis(p["axis"]), keepdims=dec_kd(p)),
        exact=False, weight=1.5)(_gen_norm)
 
 
